@@ -97,20 +97,67 @@ fn main() {
 		_ => usage(),
 	};
 	let wall = match tier {
-		Tier::Quick => Duration::from_secs(std::env::var("VERIF_WALL_S").ok().and_then(|s| s.parse().ok()).unwrap_or(45)),
+		Tier::Quick => Duration::from_secs(std::env::var("VERIF_WALL_S").ok().and_then(|s| s.parse().ok()).unwrap_or(150)),
 		Tier::Thorough => Duration::from_secs(std::env::var("VERIF_WALL_S").ok().and_then(|s| s.parse().ok()).unwrap_or(1200)),
 	};
 	let ctx = mk_ctx(tier, seed, threads, root.clone(), wall);
 
-	let report = match engine::guard(|| (prop.run)(&ctx)) {
+	let run_pass = || match engine::guard(|| (prop.run)(&ctx)) {
 		engine::Guard::Ok(r) => r,
 		engine::Guard::Panic(m) => {
 			eprintln!("MACHINERY-ERROR: explorer for {} panicked outside a guarded call: {m}", prop.id);
 			std::process::exit(2);
 		}
 	};
+	let mut report = run_pass();
+	// wide passes: the IRI half of the same driver with the non-ASCII representative of every
+	// domain replaced by a 3-byte / 4-byte character (see model::domains::WIDE_VARIANTS)
+	let mut wide_done = Vec::new();
+	for w in wide_plan(prop.id, tier) {
+		model::domains::set_wide(w);
+		fam::Family::set_iri_only(true);
+		let r = run_pass();
+		model::domains::set_wide(0);
+		fam::Family::set_iri_only(false);
+		let name = format!("U+{:04X}", model::domains::WIDE_VARIANTS[w as usize].chars().next().unwrap() as u32);
+		// cases without a non-ASCII character repeat cases of the first pass: they count as
+		// evaluations, never as distinct cases, states or transitions
+		report.count(&format!("wide_pass_{name}_evaluations"), r.evaluations);
+		report.count(&format!("wide_pass_{name}_states"), r.states);
+		report.evaluations += r.evaluations;
+		report.exhaustive &= r.exhaustive;
+		report.caps_hit.extend(r.caps_hit.into_iter().map(|c| format!("[wide pass {name}] {c}")));
+		for (k, b) in r.buckets {
+			let e = report.buckets.entry(k).or_default();
+			e.count += b.count;
+			for x in b.examples {
+				if e.examples.len() < 3 {
+					e.examples.push(x);
+				}
+			}
+		}
+		wide_done.push(name);
+	}
+	if !wide_done.is_empty() {
+		report.info.insert("wide_passes".into(), serde_json::json!(wide_done));
+		report.rule.push_str("; WIDE PASSES: the IRI half of the whole domain again with its non-ASCII representative (2-byte U+00E9) replaced by a 3-byte (U+D7FF) and/or 4-byte (U+10000) character, listed under wide_passes");
+	}
 	let code = finish(&ctx, prop, report);
 	std::process::exit(code);
+}
+
+/// Which wide passes a property runs in which tier (0 = none). Properties whose subject is a
+/// hand-written byte scanner or offset arithmetic get the 4-byte pass in the quick tier and both in
+/// the thorough tier.
+fn wide_plan(id: &str, tier: Tier) -> Vec<u8> {
+	let scanners = ["C02", "C03", "C04", "C05", "C06", "C09", "C10", "C11", "C12", "C15", "C16", "C20"];
+	if !scanners.contains(&id) {
+		return vec![];
+	}
+	match tier {
+		Tier::Quick => vec![2],
+		Tier::Thorough => vec![1, 2],
+	}
 }
 
 fn mk_ctx(tier: Tier, seed: u64, threads: usize, root: PathBuf, wall: Duration) -> Ctx {
